@@ -12,6 +12,7 @@ pub mod c07_limits;
 pub mod c01_single;
 pub mod c02_batch;
 pub mod c19_http_gate;
+pub mod c10_stop;
 pub mod c11_guard;
 pub mod c13_registry;
 pub mod c14_host_filter;
